@@ -13,7 +13,7 @@ use crate::engine::*;
 use crate::models::canonical_ip;
 use crate::vensure;
 
-pub const RULE: &str = "generated (source address of both families incl. IPv4-mapped, max_connection_age incl. 0 and u32::MAX, issue time t0, check time t1 placed at t0+age-1/age/age+1, t0-59/-60/-61 and random) executed against the real ConnectionValidator with its clock set through the verif hook; oracle = reference rule V (same canonical IP and t0+age>t1 and t0<=t1+60, evaluated in i128) in both directions, plus must-reject checks for every single-bit flip, generated double flips, random ids, ids of a second validator (fresh key) and ids issued for another address (an accepted forgery is re-tried under two fresh keys before it is reported, so a 2^-32 MAC collision cannot raise an alarm). non-trivial = t1 within 1 s of an acceptance boundary or age in {0, >= u32::MAX-1}; distinct = distinct serialised case";
+pub const RULE: &str = "generated (source address of both families incl. IPv4-mapped, max_connection_age incl. 0 and u32::MAX, issue time t0, check time t1 placed at t0+age-1/age/age+1, t0-59/-60/-61 and random) executed against the real ConnectionValidator with its clock set through the verif hook; oracle = reference rule V (same canonical IP and t0+age>t1 and t0<=t1+60, evaluated in i128) in both directions, plus must-reject checks from every address one bit away from the issuing one and from addresses carrying the same bytes in another representation (other family, zero-padded, IPv4-compatible / SIIT / NAT64 / 6to4 embeddings, reversed, halves swapped), for every single-bit flip of the id, generated double flips, random ids, ids of a second validator (fresh key) and ids issued for another address (an accepted forgery is re-tried under two fresh keys before it is reported, so a 2^-32 MAC collision cannot raise an alarm). non-trivial = t1 within 1 s of an acceptance boundary or age in {0, >= u32::MAX-1}; distinct = distinct serialised case";
 
 #[derive(Debug, Clone, Copy, Serialize, Deserialize, PartialEq)]
 pub enum IpSpec {
@@ -182,12 +182,16 @@ pub fn prop(case: &Case) -> CaseResult {
         must_reject(case, "an id issued for another address", "foreign-address-id-accepted", &|_, _, o| o, &mut out)?;
     }
 
-    // every address that differs from the issuing one in exactly one bit must be refused
+    // every address that differs from the issuing one in exactly one bit must be refused, and so
+    // must every address that merely *contains* the issuing one's bytes (other family, padded,
+    // embedded in a transition prefix, reversed, halves swapped): "every other address" includes
+    // the ones an encoding of the address into the MAC input could confuse
     {
         let octets: Vec<u8> = match canonical_ip(case.ip.ip()) {
             IpAddr::V4(a) => a.octets().to_vec(),
             IpAddr::V6(a) => a.octets().to_vec(),
         };
+        let mut candidates: Vec<(IpAddr, &'static str)> = Vec::new();
         for bit in 0..octets.len() * 8 {
             let mut o = octets.clone();
             o[bit / 8] ^= 1 << (bit % 8);
@@ -198,10 +202,19 @@ pub fn prop(case: &Case) -> CaseResult {
                 a.copy_from_slice(&o);
                 IpAddr::V6(Ipv6Addr::from(a))
             };
+            candidates.push((near, "one bit different"));
+        }
+        for r in related_addresses(&octets) {
+            candidates.push((r, "same bytes in another representation"));
+        }
+        for (near, what) in candidates {
             if canonical_ip(near) == canonical_ip(case.ip.ip()) {
                 continue;
             }
             out.checks += 1;
+            if what != "one bit different" {
+                out.label("related-address-tried");
+            }
             if v.connection_id_valid(addr(near, case.port), id) {
                 let again = |_: ()| {
                     let mut w = validator(case.age);
@@ -213,7 +226,7 @@ pub fn prop(case: &Case) -> CaseResult {
                 if again(()) && again(()) {
                     return Err(Violation::new(
                         "other-ip-accepted",
-                        format!("id issued for {:?} accepted from {} (one bit different) under three keys", case.ip, near),
+                        format!("id issued for {:?} accepted from {} ({what}) under three keys", case.ip, near),
                     ));
                 }
                 out.label("mac-collision-retried");
@@ -271,6 +284,64 @@ pub fn prop(case: &Case) -> CaseResult {
     Ok(out)
 }
 
+/// Addresses built from the bytes of `octets` (4 or 16): other family, zero padding on either
+/// side, the well-known IPv4-in-IPv6 embeddings, reversal, rotation.
+fn related_addresses(octets: &[u8]) -> Vec<IpAddr> {
+    let v6 = |b: [u8; 16]| IpAddr::V6(Ipv6Addr::from(b));
+    let v4 = |b: &[u8]| IpAddr::V4(Ipv4Addr::new(b[0], b[1], b[2], b[3]));
+    let mut out = Vec::new();
+    if octets.len() == 4 {
+        let put = |prefix: &[u8], at: usize| {
+            let mut b = [0u8; 16];
+            b[..prefix.len()].copy_from_slice(prefix);
+            b[at..at + 4].copy_from_slice(octets);
+            b
+        };
+        out.push(v6(put(&[], 12))); // ::a.b.c.d (IPv4-compatible)
+        out.push(v6(put(&[], 0))); // a.b.c.d:: (left-aligned)
+        out.push(v6(put(&[], 4)));
+        out.push(v6(put(&[], 8)));
+        out.push(v6(put(&[0, 0, 0, 0, 0, 0, 0, 0, 0xff, 0xff, 0, 0], 12))); // ::ffff:0:a.b.c.d (SIIT)
+        out.push(v6(put(&[0, 0x64, 0xff, 0x9b], 12))); // 64:ff9b::a.b.c.d (NAT64)
+        out.push(v6(put(&[0x20, 0x02], 2))); // 2002:a.b.c.d:: (6to4)
+        out.push(v6(put(&[0xff, 0xff], 12)));
+        let mut rep = [0u8; 16];
+        for i in 0..16 {
+            rep[i] = octets[i % 4];
+        }
+        out.push(v6(rep));
+        out.push(v4(&[octets[3], octets[2], octets[1], octets[0]]));
+        out.push(v4(&[octets[1], octets[2], octets[3], octets[0]]));
+    } else {
+        out.push(v4(&octets[0..4]));
+        out.push(v4(&octets[4..8]));
+        out.push(v4(&octets[8..12]));
+        out.push(v4(&octets[12..16]));
+        let mut b = [0u8; 16];
+        b[12..].copy_from_slice(&octets[12..]);
+        out.push(v6(b)); // only the low 32 bits kept
+        let mut b = [0u8; 16];
+        b[..4].copy_from_slice(&octets[..4]);
+        out.push(v6(b));
+        let mut b = [0u8; 16];
+        b[..8].copy_from_slice(&octets[..8]);
+        out.push(v6(b)); // only the /64 prefix kept
+        let mut b = [0u8; 16];
+        b[8..].copy_from_slice(&octets[8..]);
+        out.push(v6(b));
+        let mut b = [0u8; 16];
+        b[..8].copy_from_slice(&octets[8..]);
+        b[8..].copy_from_slice(&octets[..8]);
+        out.push(v6(b)); // halves swapped
+        let mut b = [0u8; 16];
+        for i in 0..16 {
+            b[i] = octets[15 - i];
+        }
+        out.push(v6(b));
+    }
+    out
+}
+
 fn ip_spec() -> impl Strategy<Value = IpSpec> + Clone {
     prop_oneof![
         any::<[u8; 4]>().prop_map(IpSpec::V4),
@@ -278,6 +349,8 @@ fn ip_spec() -> impl Strategy<Value = IpSpec> + Clone {
         any::<[u8; 4]>().prop_map(IpSpec::Mapped),
         Just(IpSpec::V4([127, 0, 0, 1])),
         Just(IpSpec::V6([0; 16])),
+        any::<[u8; 4]>().prop_map(|b| { let mut a = [0u8; 16]; a[12..].copy_from_slice(&b); IpSpec::V6(a) }),
+        any::<[u8; 4]>().prop_map(|b| { let mut a = [0u8; 16]; a[..4].copy_from_slice(&b); IpSpec::V6(a) }),
         Just(IpSpec::Mapped([127, 0, 0, 1])),
     ]
 }
@@ -362,6 +435,7 @@ pub fn run(ctx: &mut Ctx) {
     ctx.require_label("window", "future-boundary", 0.03);
     ctx.require_label("window", "accepted", 0.10);
     ctx.require_label("window", "rejected", 0.10);
+    ctx.require_label("window", "related-address-tried", 0.9);
 }
 
 pub fn replay(path: &str, _sub: &str, case: serde_json::Value) -> i32 {
